@@ -6,6 +6,28 @@ HERE = os.path.dirname(os.path.dirname(os.path.abspath(__file__)))
 sys.path.insert(0, HERE)
 from tools.manifest_table import CHECKS, NOT_APPLICABLE, ENGINES
 
+ROUND8 = {
+    "C01": "Round 8: value-coincidence idioms in the program generators (a word that holds its own address, silent stores, registers holding register numbers, the same load twice, equal operands); in every third directly installed program equal instructions are ONE object at several addresses; a share of the programs runs on a caller-supplied data memory that does not wrap addresses itself (stores through negative sums must still reach (rs1+imm) mod 2^32; what such a memory does with out-of-range LOAD addresses is not claimed and ends the case).",
+    "C02": "Round 8: value-coincidence idioms and the same self-dependent instruction repeated (as one shared object in every third program); the unobserved run() twin is sometimes a simulation wrapped around a caller-built five-stage state with the facade's mode argument left at its default.",
+    "C07": "Round 8: as C02 (shared instruction objects, repeated self-dependent instructions, unobserved twin on a caller-built state). Interlock-free cached programs whose stale pointer is unaligned are skipped (a data cache rejects the word-crossing access by design).",
+    "C08": "Round 8: as C02; interlock-free cached programs in which a stale (not yet written) pointer happens to be unaligned are skipped - a data cache rejects the word-crossing access by design (C03), the reference has no cache.",
+    "C03": "Round 8: accesses BELOW the data range through the cache (the lower memory rejects them: values, residency and - in accounting histories - the replacement order must be what they were; accepted = violation); value coincidences in histories (silent stores, value = address / tag / index); long light-weight histories on bare memory systems (hot phases of up to 66 500 accesses, 256-512 ways) judged on values and counters only.",
+    "C09": "Round 8: long light-weight histories (a hot phase of 66 500 alternating accesses in one set so that a 16-bit age stamp would wrap; 300/512-way LRU, 256-way PLRU); counters are re-synchronised after an access the lower memory rejected (not claimed either way).",
+    "C10": "Round 8: an access the lower memory rejects (address below the data range) is no block access - the next fill must still displace the reference victim; resident tags by way against the reference cache after the conflict misses of long histories (hot phases of 255+ changes of the most recently used block while other blocks stay idle); hot phases of hundreds of accesses on the bare policy objects.",
+    "C12": "Round 8: the invariant is also evaluated after accesses the lower memory rejected (a read miss that fails must not lose the victim it had already picked).",
+    "C04": "Round 8: renderings with CR-only and CR LF line ends; a program that fills the instruction memory exactly (4096 instructions, a li in the last two slots, a label behind the last instruction); the assembler's own entry point with ONE parser object reused after texts it rejected late.",
+    "C05": "Round 8: indices and .zero counts spelled with leading zeros; strings containing backslashes (a backslash is a character); CR-only / CR LF line ends.",
+    "C06": "Round 8: cells that hold their own address or a copy of a program word, accumulators equal to program addresses; sources with CR-only / CR LF line ends.",
+    "C11": "Round 8: programs handed to write_instructions() as tuple or one-shot iterator; a lower InstructionMemory that was filled by the caller (pre-filled `instructions` field, one more instruction written through the lower object).",
+    "C13": "Round 8: simulations whose data / instruction memory objects were replaced by the caller after construction (the idiom of the repository's own tests).",
+    "C14": "Round 8: the printed listing is also re-assembled by one parser object that has just rejected other texts; a stub written behind a gap of empty words inside a cached block must appear in the instruction-cache table at its own address.",
+    "C15": "Round 8: mnemonics / directives with a non-ASCII letter that case-folds to or looks like an ASCII one (found F7, repaired); decimal literals beyond the interpreter's int<->str limit (open known finding K3, printed as KNOWN-FINDING); programs that fit TOY machines of other memory sizes exactly must load.",
+    "C16": "Round 8: register files in the documented test mode (caller-supplied list shorter than 32 entries: a step that fails without inspection must fail with it); one long run whose console output passes 64 KiB while the inspected twin keeps polling.",
+    "C17": "Round 8: every table the monitor was handed is scribbled on (reversed, rows inserted / dropped) before the next request - the next answer must show the machine again; programs ending in a store that straddles the top of memory (table after the failed step).",
+    "C18": "Round 8: stored values with 0x00 / 0xFF / sign-bit lanes and address coincidences, a few 8x longer histories, histories on the data memory of a state that was handed a smaller or shifted instruction memory (first data address stays 2^14).",
+    "C19": "Round 8: sources with CR-only / CR LF line ends; a third assembly of the same source after the second image was executed.",
+    "C20": "Round 8: programs loaded into a machine that was abandoned in the middle of an instruction (found F6: load_program kept the half-cycle marker; repaired).",
+}
 checks = []
 for pid, c in CHECKS.items():
     checks.append(
@@ -17,7 +39,7 @@ for pid, c in CHECKS.items():
             "replay_cmd_template": "./check %s --replay {path}" % pid,
             "engine": c["engine"],
             "level_claimed": {"category": "exploration", "text": c["text"], "design_ref": c["ref"]},
-            "level_note": c["note"],
+            "level_note": c["note"] + (" " + ROUND8[pid] if pid in ROUND8 else ""),
             "technique": c["technique"],
         }
     )
